@@ -31,7 +31,8 @@ import time
 import traceback
 
 from harness import tlc
-from harness.common import chunks
+from harness.common import MachineryError, chunks
+from harness.templwiki import harness_error, seam
 
 PROPERTY = "C03"
 LEVEL = "exploration"
@@ -61,6 +62,8 @@ MC_CFG = """SPECIFICATION Spec
 CONSTANTS
   Mode = "%(mode)s"
   NNames = %(nnames)d
+  NPairNames = %(npair)d
+  NFnNames = %(nfn)d
   MaxArity = %(arity)d
   Stride2 = %(stride2)d
   Stride = %(stride)d
@@ -71,13 +74,14 @@ CONSTANTS
   MaxLex = %(maxlex)d
   MaxDeepLex = %(maxdeep)d
   Emit = TRUE
-INVARIANTS TypeOK TwinLaw EmitCase
+INVARIANTS TypeOK TwinLaw CoverLaw EachLaw EmitCase
 PROPERTIES AllHanded
 CHECK_DEADLOCK FALSE
 """
 
 SHAPES = {
     "empty": "",
+    "zero": "0",
     "word": "Foo bar",
     "small": "3",
     "huge": "300000",
@@ -102,16 +106,53 @@ SHAPES = {
     "powhuge": "2^99999999",
     "deepparen": "(" * 400 + "1" + ")" * 400,
 }
-def mc_cfg(mode, nnames=1, arity=0, stride2=1, stride=1, phase=0, nformats=1, ntimefns=1, nformatfns=1, maxlex=1, maxdeep=0):
-    return MC_CFG % dict(mode=mode, nnames=nnames, arity=arity, stride2=stride2, stride=stride, phase=phase,
+def mc_cfg(mode, nnames=1, npair=0, nfn=0, arity=0, stride2=0, stride=1, phase=0, nformats=1, ntimefns=1, nformatfns=1, maxlex=1, maxdeep=0):
+    return MC_CFG % dict(mode=mode, nnames=nnames, npair=npair, nfn=nfn, arity=arity, stride2=stride2, stride=stride, phase=phase,
                          nformats=nformats, ntimefns=ntimefns, nformatfns=nformatfns, maxlex=maxlex, maxdeep=maxdeep)
 
 
-def format_table():
-    """Every #time format code the running code knows."""
-    import mwlib.network.fetch  # noqa: F401
-    from mwlib.parser.templ import magic_time
-    return sorted(k for k in magic_time.CODENAMES if k != "xr")
+# ---- private names of mwlib the check reads: each through seam(), so that a rename is reported by name (exit 2)
+def _registry():
+    return seam("mwlib.parser.templ.magic_nodes", "registry")
+
+
+def _time_node():
+    return seam("mwlib.parser.templ.magic_nodes", "Time")
+
+
+def _resolver_class():
+    seam("mwlib.parser.templ.magics", "MagicResolver.has_magic")
+    return seam("mwlib.parser.templ.magics", "MagicResolver")
+
+
+def _clock_words():
+    return set(vars(seam("mwlib.parser.templ.magics", "TimeMagic"))) | set(vars(seam("mwlib.parser.templ.magics", "LocaltimeMagic")))
+
+
+def _expander_class():
+    for a in ("expandTemplates", "get_parsed_template"):
+        seam("mwlib.parser.templ.evaluate", "Expander." + a)
+    return seam("mwlib.parser.templ.evaluate", "Expander")
+
+
+_PROBE_DATE = "2001-02-03 04:05:06"
+
+
+def format_table(db):
+    """Every #time format code the running code knows — found through the public route: a letter is a code
+    if {{#time:<letter>|date}} does not just echo it."""
+    from harness.templwiki import expand
+    codes = []
+    for ch in "abcdefghijklmnopqrstuvwxyzABCDEFGHIJKLMNOPQRSTUVWXYZ":
+        try:
+            out = expand(db, "{{#time:%s|%s}}" % (ch, _PROBE_DATE))[0]
+        except Exception:                                       # noqa: BLE001   (a code that crashes is a code)
+            out = None
+        if out != ch:
+            codes.append(ch)
+    if len(codes) < 5:
+        raise MachineryError("probing {{#time:<letter>|%s}} found only the format codes %r" % (_PROBE_DATE, codes))
+    return sorted(codes)
 
 
 TIMEISH = ("time", "date", "day", "month", "year", "week", "hour", "dow")
@@ -121,13 +162,12 @@ def time_fn_table(lang):
     """The names of the site that deal with dates, from the running code: first those that resolve to the
     #time node (they take a format), then every TimeMagic / LocaltimeMagic word and every other
     magic word whose canonical name mentions a date/time unit.  -> (names, number of format-taking ones)"""
-    import mwlib.network.fetch  # noqa: F401
-    from mwlib.parser.templ import magic_nodes, magics
-    clock = set(vars(magics.TimeMagic)) | set(vars(magics.LocaltimeMagic))
+    clock = _clock_words()
+    registry, time_node = _registry(), _time_node()
     fmt, other = [], []
     for n in name_table(lang):
         canon = canonical(lang, n)
-        if magic_nodes.registry.get(canon.lower()) is magic_nodes.Time:
+        if registry.get(canon.lower()) is time_node:
             fmt.append(n)
         elif canon in clock or any(w in canon.lower() for w in TIMEISH):
             other.append(n)
@@ -164,20 +204,21 @@ def vm_cfg(nt, limit, maxbody=2, growth=False, swallow=2, dec=True, capbyname=Tr
 # ----------------------------------------------------------------------------- name table
 def name_table(lang):
     """Every name the running code resolves as magic word / parser function on this site."""
-    import mwlib.network.fetch  # noqa: F401  (import order: avoids the circular import in templ)
+    from harness.templwiki import preload
+    preload()
     from mwlib.network import siteinfo
-    from mwlib.parser.templ import magic_nodes, magics
+    registry, resolver_class = _registry(), _resolver_class()
     names = set()
-    for n in dir(magics.MagicResolver):
+    for n in dir(resolver_class):
         if not n.startswith("_") and n.upper() == n and any(ch.isalpha() for ch in n):
             names.add(n)
-    names.update(magic_nodes.registry.keys())
-    resolver = magics.MagicResolver()
+    names.update(registry.keys())
+    resolver = resolver_class()
     for mw in siteinfo.get_siteinfo(lang).get("magicwords", []):
         hashed = "#" + mw["name"]
         # the site lists parser functions without '#': the spelling with '#' is a name as well
         # wherever the running code resolves it (registry node or resolver method)
-        with_hash = hashed in magic_nodes.registry or resolver.has_magic(hashed)
+        with_hash = hashed in registry or resolver.has_magic(hashed)
         for a in [mw["name"]] + list(mw["aliases"]):
             a = a.rstrip(":")
             if not a or any(ch in a for ch in "{}|=<>[]\n"):
@@ -185,7 +226,42 @@ def name_table(lang):
             names.add(a)
             if with_hash and not a.startswith("#"):
                 names.add("#" + a)
-    return sorted(names)
+    fns = sorted(n for n in names if is_function(lang, n, resolver))
+    pair = [n for n in fns if accepts_two(lang, n)]
+    return pair + [n for n in fns if n not in set(pair)] + sorted(names - set(fns))
+
+
+def accepts_two(lang, name):
+    """Does the function take two or more arguments in the running code?  Parser-function nodes do; a resolver
+    method does unless it is wrapped by no_arg / single_arg / _wrap_pagename, is a dummy resolver or has no parameter."""
+    import inspect
+
+    registry, resolver_class = _registry(), _resolver_class()
+    canon = canonical(lang, name)
+    if canon.lower() in registry or name.lower() in registry:
+        return True
+    m = getattr(resolver_class, canon.upper(), None) or getattr(resolver_class, name.upper(), None)
+    if m is None or isinstance(m, str) or hasattr(m, "__wrapped__") or getattr(getattr(m, "__code__", None), "co_name", "") == "resolve":
+        return False
+    try:
+        return len(inspect.signature(m).parameters) >= 2
+    except (TypeError, ValueError):
+        return True
+
+
+def is_function(lang, name, resolver=None):
+    """Does the running code resolve this name to a magic word / parser function (rather than look it up as a template)?"""
+    registry = _registry()
+    resolver = resolver or _resolver_class()()
+    canon = canonical(lang, name)
+    return canon.lower() in registry or name.lower() in registry or resolver.has_magic(canon) or resolver.has_magic(name)
+
+
+def fn_count(lang, names):
+    """-> (functions of two or more arguments, functions): the table lists them in that order"""
+    r = _resolver_class()()
+    fns = [n for n in names if is_function(lang, n, r)]
+    return sum(1 for n in fns if accepts_two(lang, n)), len(fns)
 
 
 _ALIAS = {}
@@ -195,8 +271,8 @@ def canonical(lang, name):
     """The function a site alias stands for (what the running code resolves it to)."""
     if lang not in _ALIAS:
         from mwlib.network import siteinfo
-        from mwlib.parser.templ.parser import AliasMap
-        _ALIAS[lang] = AliasMap(siteinfo.get_siteinfo(lang))
+        seam("mwlib.parser.templ.parser", "AliasMap.resolve_magic_alias")
+        _ALIAS[lang] = seam("mwlib.parser.templ.parser", "AliasMap")(siteinfo.get_siteinfo(lang))
     return (_ALIAS[lang].resolve_magic_alias(name) or name).upper()
 
 
@@ -246,11 +322,11 @@ def measure(db, text, mem=False, limit=None, steps=True):
     import tracemalloc
 
     from harness.templwiki import StepCounter
-    from mwlib.parser.templ.evaluate import Expander
+    Expander = _expander_class()
     kw = {} if limit is None else {"recursion_limit": limit}
     # #expr memoises results per process; where the memo can be reached it is emptied so that every case is
     # measured cold (a memo hit only makes a case cheaper: it cannot cause a disagreement, only hide one)
-    from mwlib.parser import expr as _expr
+    _expr = seam("mwlib.parser.expr")
     memo = getattr(_expr, "_cache", None)
     if hasattr(memo, "clear"):
         memo.clear()
@@ -268,6 +344,8 @@ def measure(db, text, mem=False, limit=None, steps=True):
                 tracemalloc.start()
             out = e.expandTemplates()
         r["steps"] = sc.n
+        if not hasattr(e, "recursion_count"):
+            raise MachineryError("seam mwlib.parser.templ.evaluate.Expander().recursion_count does not exist")
         r["count"] = e.recursion_count
         if isinstance(out, str):
             r["ok"] = True
@@ -277,6 +355,8 @@ def measure(db, text, mem=False, limit=None, steps=True):
     except Hang:
         r["err"], r["cls"], r["where"] = "no result after %ds" % WATCHDOG_S, "Hang", "watchdog"
     except BaseException as err:                               # noqa: BLE001
+        if isinstance(err, MachineryError) or harness_error(err):
+            raise MachineryError("the harness failed while expanding %r: %s: %s" % (text[:80], type(err).__name__, err))
         r["steps"] = sc.n
         r["err"], r["cls"], r["where"] = "%s: %s" % (type(err).__name__, str(err)[:200]), errclass(err), where_of(err)
     finally:
@@ -432,7 +512,7 @@ def _vm_worker(args):
     idx, cases, scratch = args
     from harness import templwiki
     templwiki.quiet_logging()
-    from mwlib.parser.templ.evaluate import Expander
+    Expander = _expander_class()
     tm = {}
     conc = []
     for c in cases:
@@ -471,6 +551,8 @@ def vm_run(Logged, db, c, t, p, nm):
     except Hang:
         return (key + " hang", "no result after %ds" % WATCHDOG_S, rep)
     except BaseException as err:                                # noqa: BLE001
+        if isinstance(err, MachineryError) or harness_error(err):
+            raise MachineryError("the harness failed while replaying %s: %s: %s" % (key, type(err).__name__, err))
         return (key + " raised " + type(err).__name__, "%s at %s: %s" % (type(err).__name__, where_of(err), str(err)[:200]), rep)
     finally:
         signal.alarm(0)
@@ -480,6 +562,8 @@ def vm_run(Logged, db, c, t, p, nm):
     elif project(got) != c["out"]:
         pr = project(got)
         problems.append("output %s, the model predicts %r" % (repr(pr) if pr is not None else "(not over a/{{{1}}}/block/error) " + repr(got[:80]), c["out"]))
+    if not hasattr(e, "recursion_count"):
+        raise MachineryError("seam mwlib.parser.templ.evaluate.Expander().recursion_count does not exist")
     if e.recursion_count != 0:
         problems.append("recursion_count=%r after the expansion" % e.recursion_count)
     got_log = [(inv.get(n, -1), k) for n, k in e.vlog]
@@ -538,11 +622,14 @@ def run(ctx):
     for li, lang in enumerate(langs):
         tables[lang] = name_table(lang)
         full3 = (not quick) and lang == "en"
-        stride = 1000 if quick else (20 if full3 else 100)
-        stride2 = 40 if quick else (1 if full3 else 8)
-        f_calls[lang] = T("MagicCalls", mc_cfg("calls", nnames=len(tables[lang]), arity=3, stride=stride, stride2=stride2, phase=ctx.seed + li),
+        # quick: the covering design of MagicCalls.tla only; thorough: plus the product thinned by strides
+        stride = 1 if quick else (20 if full3 else 100)
+        stride2 = 0 if quick else (1 if full3 else 8)
+        f_calls[lang] = T("MagicCalls", mc_cfg("calls", nnames=len(tables[lang]), npair=fn_count(lang, tables[lang])[0], nfn=fn_count(lang, tables[lang])[1], arity=3, stride=stride, stride2=stride2, phase=ctx.seed + li),
                           "MagicCalls_%s" % lang)
-    formats = format_table()
+    from harness import templwiki
+    templwiki.quiet_logging()
+    formats = format_table(templwiki.make_wikidb(os.path.join(root, "probe"), {"Lc": "x"}))
     tfns, nfmt = time_fn_table("en")
     f_time = T("MagicCalls", mc_cfg("time", nformats=len(formats), ntimefns=len(tfns), nformatfns=nfmt), "MagicCalls_time")
     f_junk = T("MagicCalls", mc_cfg("junk", maxlex=3, maxdeep=2), "MagicCalls_junk", coverage=True)
@@ -663,11 +750,13 @@ def run(ctx):
                   action_coverage={a: cov.coverage[a] for a in VM_ACTIONS}, nonvacuity=nonvac, exhaustive=False,
                   rule="(1) every terminal behaviour of TemplateVM.tla (all call graphs on NT templates with bodies of <= 2 items, 33 pages (3 pages for NT=3), "
                        "Limit in {2,3,4}, and with doubling calls / block arguments at Limit 10; plans %r as (NT, Limit, Growth)) replayed on the real Expander — non-trivial = nesting deeper than 2; (2) every call "
-                       "TLC enumerates from MagicCalls.tla over the name table generated from the running code for sites %r (arity 0..2 "
-                       "complete in thorough; in quick arity 0..1 complete, arity 2 / 3 thinned by strides 40 / 1000; thorough: en 1 / 20, other sites 8 / 100; 23 shapes = 10 base + 13 'arithmetic at the edges', at most one edge shape per tuple) — each is a distinct (name, shapes) input; (3) every "
+                       "TLC enumerates from MagicCalls.tla over the name table generated from the running code for sites %r (24 shapes = 10 base + oversize "
+                       "+ 13 'arithmetic at the edges'; arity 0..1 complete; arity 2 / 3: for every function of >= 2 arguments (introspected) an all-pairs covering design "
+                       "(base square / orthogonal array over the base shapes, every heavy shape in every position against every critical shape empty/zero/negative/huge), "
+                       "each-choice for the other names; thorough adds the product thinned by strides en 1 / 20, other sites 8 / 100) — each is a distinct (name, shapes) input; (3) every "
                        "sequence of <= 3 lexemes over the 23-lexeme template alphabet (those of <= 2 lexemes also repeated 3000 times), as page and as "
                        "template body; (4) every date/time name of the site (table from the running code; #time and aliases with every format code of "
-                       "magic_time.CODENAMES, alone and behind 'xr', and without format) x the date-shape class of MagicCalls.tla (digit-string "
+                       "found by probing {{#time:<letter>}}, alone and behind 'xr', and without format) x the date-shape class of MagicCalls.tla (digit-string "
                        "readings and ISO forms with one field at a boundary / first out-of-range value, digit runs of length 1..14, 40, 400, "
                        "relative words, unix stamps, garbage, empty, none)" % (vm_plans, langs))
     for c in vm_cases[:: max(1, len(vm_cases) // 2)][:2]:
@@ -696,7 +785,7 @@ def replay(ctx, path):
     elif rp["kind"] == "junk":
         n, bad = _junk_worker((0, [{"lex": rp["lex"], "rep": rp.get("rep", 1)}], root))
     elif rp["kind"] == "time":
-        formats = format_table()
+        formats = format_table(templwiki.make_wikidb(os.path.join(root, "probe"), {"Lc": "x"}))
         lang = rp.get("lang", "en")
         n, bad = _time_worker((0, lang, [rp["fn"]], formats, [{"fn": 1, "f": formats.index(rp["f"]) + 1 if rp["f"] else 0,
                                                                  "pre": rp["pre"], "date": rp["date"]}], root))
